@@ -2,7 +2,7 @@
 from common import *
 
 RULE = ("designed layouts: an enzyme (BsaI / BbsI / BtgZI, each through CutWithEnzymeByName AND CutWithEnzyme, or a custom "
-        "non-palindromic site of 4..12 letters, skip 0..30, overhang 0..10 - 0 = blunt cutter, incl. coincident forward/reverse cuts), a sequence of 20..3000 bases (log-uniform) with 0..6 planted "
+        "non-palindromic site of 4..12 letters, skip 0..30, overhang 0..10 - 0 = blunt cutter; a fixed family of blunt layouts with forward/reverse cuts 0, 1 or 2 bases apart, the coincident ones being out-of-domain probes), a sequence of 20..3000 bases (log-uniform) with 0..6 planted "
         "sites in either orientation at arbitrary spacing (adjacent sites, paired cuts exactly two overhang lengths apart, cuts leaping "
         "over neighbouring sites, homopolymer / two-letter / random ACGT filler, filler with N / IUPAC codes / U, digits, blanks, accidental sites repaired away), mixed / all-lower / all-upper letter case. "
         "Circular parts: one case = ALL rotations of the plasmid (n <= 300) or the rotations that put the origin at / next to / inside "
@@ -14,7 +14,14 @@ EXHAUSTIVE = {"quick": False, "thorough": True}
 TRUSTED_BASE = ["Spec/Digest.lean: enzyme geometries typed from REBASE (GGTCTC(1/5), GAAGAC(2/6), GCGATG(10/14)); cyclic reading of the plasmid",
                 "Go regexp on a literal site = leftmost non-overlapping scan (modelled; corresponded on every case)",
                 "ASCII input"]
-ASSUMPTIONS = ["inputs are ASCII", "custom enzymes carry literal (QuoteMeta) regular expressions for the site and its reverse complement"]
+ASSUMPTIONS = ["inputs are ASCII",
+               "coincident cuts: with overhang 0 a forward and a backward-pointing site can cut the same bond; the property statement does not "
+               "determine the result there (is the empty stretch a fragment? does a bond cut from both sides end an earlier forward cut's stretch?), "
+               "and its quantifier speaks of paired cuts that are APART, so such layouts are read as outside the quantifier: judged skip, "
+               "correspondence drift only (a dedicated family generates them). The theorems hold there for the resolution written into the spec "
+               "(forward before reverse at the same bond, the empty stretch is reported - which is what the stable sort of the code does); inside the "
+               "quantifier the opposite resolution gives the same digestion (tie_free_circular / tie_free_linear), so no verdict depends on the choice",
+               "custom enzymes carry literal (QuoteMeta) regular expressions for the site and its reverse complement"]
 PARTIAL = []
 
 BUILTIN = {"BsaI": ("GGTCTC", 1, 4), "BbsI": ("GAAGAC", 2, 4), "BtgZI": ("GCGATG", 10, 4)}
@@ -106,12 +113,15 @@ def filler_alphabet(r):
     return list(ACGT) * 2 + list(ODD)                  # U, digits, blanks, punctuation in the stored string
 
 
-def layout(r, n, site, skip, oh, circular, k, wantwf=True):
-    """plant k sites (random orientation) into a filler of n letters; returns the sequence or None"""
+def layout(r, n, site, skip, oh, circular, k, wantwf=True, fixed_orient=None, fixed_gaps=None):
+    """plant k sites (random orientation) into a filler of n letters; returns the sequence or None.
+    fixed_orient / fixed_gaps: prescribed orientations and gaps (gap i = letters before site i)"""
     m = len(site)
     rs = rc(site)
     t = r.random()
-    if t < 0.55:
+    if fixed_orient is not None:
+        orient = list(fixed_orient)
+    elif t < 0.55:
         # forward and backward sites alternate: every forward cut is paired
         first = r.random() < 0.85
         orient = [first ^ (i % 2 == 1) for i in range(k)]
@@ -139,6 +149,10 @@ def layout(r, n, site, skip, oh, circular, k, wantwf=True):
             else:
                 g = r.randint(0, max(0, free))
             gaps.append(max(0, g))
+        if fixed_gaps is not None:
+            gaps = [r.randint(0, 6) if g is None else g for g in fixed_gaps]
+            if sum(gaps) > free:
+                return None
         total = sum(gaps)
         if total > free:
             # shrink the largest gaps
@@ -176,6 +190,36 @@ def layout(r, n, site, skip, oh, circular, k, wantwf=True):
             continue
         return s
     return None
+
+
+def blunt_family(r, circular):
+    """fixed family: a blunt cutter (overhang 0) whose forward and backward-pointing sites cut the same bond
+    (delta = 0: outside the quantifier, correspondence only) or one / two bases apart (judged), alone or
+    after an earlier forward cut, or followed by a further pair"""
+    while True:
+        site = randword(r, ACGT, r.randint(4, 7))
+        if site != rc(site):
+            break
+    skip = r.choice([0, 1, 2, 3, 5, 8])
+    delta = r.choice([0, 0, 0, 1, 1, 2])
+    pair = 2 * skip + delta
+    pattern = r.choice(["FR", "FR", "FFR", "FFR", "FRFR", "RFR", "FRR"])
+    orient = [c == "F" for c in pattern]
+    gaps = [None] * len(pattern)
+    for i in range(1, len(pattern)):
+        if pattern[i - 1] == "F" and pattern[i] == "R":
+            gaps[i] = pair if (i == len(pattern) - 1 or r.random() < 0.7) else 2 * skip + r.randint(0, 2)
+        elif pattern[i - 1] == "F" and pattern[i] == "F":
+            gaps[i] = r.randint(0, 4)          # the earlier forward cut lands shortly before the shared bond
+    need = len(pattern) * len(site) + sum(g or 6 for g in gaps) + 4
+    n = r.randint(max(20, need), max(20, need) + 40)
+    s = layout(r, n, site, skip, 0, circular, len(pattern), True, orient, gaps)
+    if s is None:
+        return None
+    s = anycase(r, s)
+    if circular:
+        return ["circ", "", site, str(skip), "0", "true", s, "all"]
+    return ["lin", "", site, str(skip), "0", "true", s]
 
 
 def anycase(r, s):
@@ -322,6 +366,13 @@ def cases(seed, tier):
         if c:
             yield c
 
+    # --- blunt cutters: coincident and near-coincident forward/reverse cuts, every rotation
+    for i in range(20 if quick else 300):
+        for circular in (True, False):
+            c = blunt_family(r, circular)
+            if c:
+                yield c
+
     # --- the same stored string through a history of calls (both topologies, both modes) in one process
     for i in range(40 if quick else 600):
         c = lin_case(r, 400)
@@ -434,7 +485,7 @@ LEVEL_TEXT = ("Kernel-checked theorems about the statement-by-statement model of
               "discipline of the model, as it is a language guarantee in Go; outside wfLinear a linear call may still panic, e.g. paired cuts closer "
               "than two overhang lengths or the non-directional single-cut branch with a cut in the last bases, and nothing is claimed there), cut_case, "
               "builtin_pinned / byName_eq (the built-in table is the REBASE geometry). The model is tied to clone.CutWithEnzyme by correspondence "
-              "on every generated case (fragment lists in order, panics included, ByName = direct call), and every real output is judged against "
+              "on every generated case (fragment lists as multisets, panics included, ByName = direct call), and every real output is judged against "
               "the spec as a multiset at every rotation (exhaustive over all rotations for plasmids up to 300 bases in the thorough tier).")
 LEVEL_NOTE = ("Trusted: Lean kernel; harness + pm_C10; REBASE geometries typed by hand in Spec/Digest.lean; Go regexp on a literal site "
               "modelled as a leftmost non-overlapping scan (corresponded on every case; a dedicated out-of-domain probe family plants self-overlapping "
